@@ -57,6 +57,16 @@ func noArg(*engine.Shape) int { return 0 }
 // "no error" cannot be the rule. Independently of the warning's wording: the
 // parse succeeded iff there is no error at all, or exactly one error together
 // with a non-empty remainder (every truncation path returns a nil remainder).
+// RefKnob draws the self-reference knob of a shape (engine.Shape.Ref): one run
+// in four, one lease gateway or entry hash is derived from the structure's own
+// identity, key or preceding bytes, repeats its neighbour, or is all zeros/ones.
+func RefKnob(r *engine.RNG) int {
+	if !r.Chance(1, 4) {
+		return 0
+	}
+	return r.PickInt(1, 1, 1, 2, 3, 4, 5, 6, 7, 8) | r.Intn(16)<<4
+}
+
 func mappingOK(errs []error, rem []byte) bool {
 	n := 0
 	for _, e := range errs {
@@ -175,6 +185,7 @@ func ls2Shape(r *engine.RNG, kind string) *engine.Shape {
 	if r.Chance(1, 3) {
 		sh.Offline = offline(r, allTransients)
 	}
+	sh.Ref = RefKnob(r)
 	if kind == "ls2" {
 		sh.N = r.PickInt(0, 1, 1, 2, 3, 5, 16)
 		sh.Size = r.PickInt(1, 1, 2, 3, 16)
@@ -369,6 +380,7 @@ var All = []*Adapter{
 		sh := IdentShape(r, "dest")
 		sh.Kind = "leaseset"
 		sh.Crypto = 0
+		sh.Ref = RefKnob(r)
 		if sh.Cert != "null" && r.Chance(1, 2) {
 			sh.Sig = r.PickInt(7, 7, 0, 1, 2)
 		}
